@@ -25,7 +25,7 @@ SHARD_TIMEOUT = {"quick": 120, "thorough": 2400}
 
 SHAPES = ["close_local", "close_remote", "end_of_exec", "drop_local", "drop_remote", "error", "callback", "callback_drop",
           "remote_status", "nested_transfer", "exec_error", "reply_channel_both_dropped", "callback_then_local_close",
-          "exec_sets_callback_on_own_channel", "both_callbacks_peer_drops_first", "callback_channel_sent_back"]
+          "exec_sets_callback_on_own_channel", "both_callbacks_peer_drops_first", "callback_channel_sent_back", "endmarker_callback_raises"]
 
 
 def shards(tier, seed):
@@ -426,6 +426,33 @@ def one_cycle(res, lab, rng, shape, n):
             res.violation("callback-lost-items-to-a-second-object-of-its-channel", f"cycle {n}: callback saw {got!r}")
         del again
         gc.collect()
+    elif shape == "endmarker_callback_raises":
+        # user code that cannot cope with its own endmarker: execnet only warns; the finished conversation is forgotten anyway
+        import io
+        import sys
+
+        from vlib import pairs
+
+        seen = []
+
+        def doubling(item):
+            seen.append(item)
+            return item * 2  # TypeError for the endmarker None
+
+        lc, rc = lab.pair_newchannel_local() if n % 2 else tuple(reversed(lab.pair_newchannel_remote()))
+        real_stderr, sys.stderr = sys.stderr, io.StringIO()
+        try:
+            lc.setcallback(doubling, endmarker=None)
+            rc.send(n)
+            pairs.wait_until(lambda: n in seen, 15.0)
+            (rc.close if n % 3 else lc.close)()
+            pairs.wait_until(lambda: None in seen, 15.0)
+            lc.waitclose(10)
+            rc.waitclose(10)
+        finally:
+            sys.stderr = real_stderr
+        if seen != [n, None]:
+            res.violation("callback-transcript-wrong-with-failing-endmarker", f"cycle {n}: {seen!r}")
     elif shape == "exec_sets_callback_on_own_channel":
         ch = gw.remote_exec("seen = []\nchannel.setcallback(seen.append, endmarker=None)\nchannel.send('ready')")
         assert ch.receive(10) == "ready"
